@@ -74,6 +74,10 @@ Section C16.
         (Z.to_nat ((r0 + fftfreq_index N1 i) mod Z.of_nat H) * W
          + Z.to_nat ((c0 + fftfreq_index N2 j) mod Z.of_nat W))%nat) (seq 0 N2)) (seq 0 N1).
 
+  (* the flattened index tensor of a batch of positions (what sum_patches / obj_flat[...] receive) *)
+  Definition batch_patch_indices (H W : nat) (pos : list (Z * Z)) : list nat :=
+    flat_map (fun rc => patch_indices H W (fst rc) (snd rc)) pos.
+
   (* ---------------------------------------------------------------- multislice overlap *)
   (* for s in 1 .. S-1: overlap = obj[s] * propagate(overlap, propagators[s-1]) *)
   Fixpoint multislice (objs props : list img) (overlap : img) : img :=
